@@ -9,6 +9,19 @@ _PENDING = "no registered check yet at this commit (model and correspondence und
 NOT_APPLICABLE = {f"C{i:02d}": _PENDING for i in range(1, 21)}
 
 META = {
+    "C09": {
+        "text": ("Lean theorems for every sort specification, every partition into any number of shards (empty ones included), every "
+                 "size and offset: the first k of the concatenated per-shard first-k lists are the first k of all documents "
+                 "(topk_of_union, by a structural lemma on ordered insertion), hence the alias page equals the single-index page; "
+                 "Total is additive; nested (binary) alias trees answer like a single index. The model of MultiSearch and of the facet "
+                 "merge is compared with the real merge of the members' real answers, and alias results with single-index results, on "
+                 "every run."),
+        "design_ref": "DESIGN.md section 4, C09",
+        "note": ("trusted: Lean kernel, Go harness. The hit number stands for document identity (never decides under a total sort). "
+                 "Facet merge equality with the single-index facet is checked by correspondence, not yet proved. Search-after/before "
+                 "through an alias are covered by the differential runs."),
+        "technique": "Lean 4 proof (top-k of union) + differential correspondence alias vs single index vs model of MultiSearch",
+    },
     "C10": {
         "text": ("Lean theorems for every facet request and every list of matching documents: a term's counter is the number of "
                  "matching documents containing it (documents list each term once), Total counts every visited term, Missing the "
